@@ -587,6 +587,21 @@ def plainAll (fuel : Nat) (v : JV N) : JV N :=
     | .obj fs => .obj (fs.map fun (k, x) => (k, plainAll fuel x))
     | v => v
 
+/-- succinctly re-reads the `reduce`/`foreach` state from its printed form at every step, so a
+double that prints as an integer continues as an exact integer (recorded C24 finding). -/
+def reparseAll (fuel : Nat) (v : JV N) : JV N :=
+  match fuel with
+  | 0 => v
+  | fuel + 1 =>
+    match v with
+    | .num n =>
+      (match NumOps.print n with
+       | some s => (match (NumOps.ofLit s : Option N) with | some m => .num m | none => v)
+       | none => v)
+    | .arr xs => .arr (xs.map (reparseAll fuel))
+    | .obj fs => .obj (fs.map fun (k, x) => (k, reparseAll fuel x))
+    | v => v
+
 /-- names/arity of the primitives `prim` implements (anything else is outside the fragment) -/
 def primNames : List (String × Nat) :=
   [("empty",0),("not",0),("error",0),("error",1),("halt",0),("halt_error",0),("halt_error",1),("length",0),
@@ -615,11 +630,7 @@ def prim (d : Dialect) (name : String) (args : List (JV N)) (v : JV N) (p : PInf
     (match v with
      | .null => ok (JV.ofNat 0)
      | .bool _ => subjErr v "has no length"
-     | .num n =>
-       (match NumOps.math "fabs" n, NumOps.toInt? n with
-        | _, some i => ok (JV.ofInt i.natAbs)
-        | some r, none => ok (.num r)
-        | none, none => none)
+     | .num n => (NumOps.math "length" n).bind fun r => ok (.num r)
      | .str s => ok (JV.ofNat s.length)
      | .arr xs => ok (JV.ofNat xs.length)
      | .obj fs => ok (JV.ofNat fs.length))
@@ -927,6 +938,12 @@ def navErrAccess (k t : JV N) : Res N :=
 def dropErrIf (opt : Bool) (r : List (Out N)) : List (Out N) :=
   if opt then (match r with | [.err _] => [] | r => r) else r
 
+/-- succinctly vivifies the prefix of a path whose optional last step failed (`(.x|.[]?) |= f` adds
+`"x":null`; recorded C24 finding): no verdict there -/
+def optPathUnmodelled (d : Dialect) (opt : Bool) (tp : PInfo N) (r : List (Out N)) : Bool :=
+  d.succinctly && opt && (match tp with | .at _ => true | _ => false) &&
+    (match r with | [.err _] => true | _ => false)
+
 def isLost : PInfo N → Bool
   | .lost => true
   | _ => false
@@ -944,6 +961,7 @@ def succName (name : String) (arity : Nat) : String :=
   | "infinite", 0 => "_unmodelled"
   | "isnormal", 0 => "_unmodelled"
   | "splits", _ => "_unmodelled"
+  | "combinations", _ => "_unmodelled"
   | "ascii", _ => "_unmodelled"
   | "tostream", 0 => "tostream"
   | "last", 1 => "_last_s"
@@ -953,11 +971,18 @@ def succName (name : String) (arity : Nat) : String :=
   | "flatten", 1 => "_flatten1_s"
   | "indices", 1 => "_indices_s"
   | "_modify", 2 => "_modify_s"
+  | "_modify_alt", 2 => "_modify_alt_s"
   | "split", 1 => "_split_s"
   | "trim", 0 => "_trim_s"
   | "ltrim", 0 => "_ltrim_s"
   | "rtrim", 0 => "_rtrim_s"
   | n, _ => n
+
+/-- `reduce`/`foreach` written in the user's program (as opposed to the ones inside the prelude's
+definitions of builtins that succinctly implements natively): the prelude binds only these names -/
+def userFold : Pattern → Bool
+  | .var n => !(["p", "x", "i", "item", "q"].contains n)
+  | _ => true
 
 def evalStep (d : Dialect) (rec : Rec N) (e : Expr) (env : Env N) (v : JV N) (p : PInfo N) :
     Option (List (Out N)) :=
@@ -986,7 +1011,9 @@ def evalStep (d : Dialect) (rec : Rec N) (e : Expr) (env : Env N) (v : JV N) (p 
       let ts ← rec t env v p
       bindOut ts (fun tv tp =>
         if isLost tp then navErrAccess kv tv
-        else (indexValue tv kv).map fun r => dropErrIf opt (r.map fun | .val x _ => .val x (tp.push kv) | o => o)))
+        else (indexValue tv kv).bind fun r =>
+          if optPathUnmodelled d opt tp r then none
+          else some (dropErrIf opt (r.map fun | .val x _ => .val x (tp.push kv) | o => o))))
   | .slice t lo hi opt => do
     let los ← (match lo with | some a => rec a env v .off | none => some [.val .null .off])
     bindOut los (fun lv _ => do
@@ -997,8 +1024,9 @@ def evalStep (d : Dialect) (rec : Rec N) (e : Expr) (env : Env N) (v : JV N) (p 
           let lo' := if lo.isSome then some lv else none
           let hi' := if hi.isSome then some hv else none
           if isLost tp then navErrAccess (sliceKey lo' hi') tv
-          else (sliceValue tv lo' hi').map fun r =>
-            dropErrIf opt (r.map fun | .val x _ => .val x (tp.push (sliceKey lo' hi')) | o => o))))
+          else (sliceValue tv lo' hi').bind fun r =>
+            if optPathUnmodelled d opt tp r then none
+            else some (dropErrIf opt (r.map fun | .val x _ => .val x (tp.push (sliceKey lo' hi')) | o => o)))))
   | .iterate t opt => do
     let ts ← rec t env v p
     bindOut ts (fun tv tp =>
@@ -1006,7 +1034,8 @@ def evalStep (d : Dialect) (rec : Rec N) (e : Expr) (env : Env N) (v : JV N) (p 
         (match dumpTrunc tv with
          | some dmp => errS s!"Invalid path expression near attempt to iterate through {dmp}"
          | none => none)
-      else (iterValues tv tp).map (dropErrIf opt))
+      else (iterValues tv tp).bind fun r =>
+        if optPathUnmodelled d opt tp r then none else some (dropErrIf opt r))
   | .try_ body handler => do
     let r ← rec body env v p
     match terminatorOf r with
@@ -1092,7 +1121,7 @@ def evalStep (d : Dialect) (rec : Rec N) (e : Expr) (env : Env N) (v : JV N) (p 
           | some t => pure (st, [t])
           | none =>
             match r.getLast? with
-            | some (.val nv np) => pure ((nv, np), [])
+            | some (.val nv np) => pure ((if d.succinctly && userFold pat then reparseAll 200 nv else nv, np), [])
             | _ => pure ((JV.null, st.2.drop), []))
       if terminated outs then pure outs else pure [.val st.1 st.2])
   | .foreach src pat init upd ext =>
@@ -1105,7 +1134,8 @@ def evalStep (d : Dialect) (rec : Rec N) (e : Expr) (env : Env N) (v : JV N) (p 
         | .error m => if m.startsWith "UNMODELLED" then none else some (st, [.err (.str m)])
         | .ok env' => do
           let r ← rec upd env' st.1 st.2
-          foldOut r (JV.null, st.2.drop) (fun _ u up =>
+          foldOut r (JV.null, st.2.drop) (fun _ u0 up =>
+            let u := if d.succinctly && userFold pat then reparseAll 200 u0 else u0
             match ext with
             | none => some ((u, up), [.val u up])
             | some x => do
